@@ -63,7 +63,7 @@ func (m *Monitor) doRespConnect(r *mReq, msg *stun.Message, ok bool, code int, I
 			// a second Connect to a peer with a pending/active connection must be 446
 			dup := false
 			for _, t := range def.TCPs {
-				if t.Peer == ustr(peer) && !t.Closed && t.Created.Hi < I.Lo && (t.Bound || t.Created.Lo+bindTimeoutNS > I.Hi) {
+				if t.Peer == ustr(peer) && !t.Closed && !t.peerGone() && t.Created.Hi < I.Lo && (t.Bound || t.Created.Lo+bindTimeoutNS > I.Hi) {
 					dup = true
 				}
 			}
@@ -97,7 +97,9 @@ func (m *Monitor) doRespConnect(r *mReq, msg *stun.Message, ok bool, code int, I
 		m.v([]string{"C16"}, "cid-reused", nil, "Connect success names connection id %d which another live connection has", cid)
 	}
 	for _, t := range a.TCPs {
-		if t.Peer == ustr(peer) && !t.Closed && t.Created.Hi < I.Lo && (t.Bound || t.Created.Lo+bindTimeoutNS > I.Hi) {
+		// (t.Closed is only brought up to date at idle points, which a parked goroutine postpones:
+		// look at the connection itself)
+		if t.Peer == ustr(peer) && !t.Closed && !t.peerGone() && t.Created.Hi < I.Lo && (t.Bound || t.Created.Lo+bindTimeoutNS > I.Hi) {
 			m.v([]string{"C16"}, "dup-connect-wrong-answer", kv("code", "success"), "second Connect to %s succeeded while connection %d to that peer is pending or active", ustr(peer), t.CID)
 		}
 	}
